@@ -23,6 +23,8 @@ VerifyFails(e) ==
       allok == \A j \in 1..c : vc[j].reterr = "ok"
   IN
   (IF v.res = "panic" THEN {"panic"} ELSE {})
+  \* NoEmpty: whatever was done to the slots, a message with an empty signature cannot be serialised
+  \cup (IF e.obs[k - 2].op = "marshal" /\ e.obs[k - 2].res = "ok" /\ \E j \in 1..m : pre.sigs[j].sig = <<>> THEN {"message-with-an-empty-signature-serialised"} ELSE {})
   \cup (IF ~disciplined THEN {"verifier-calls-not-positional-over-own-sig-structure"} ELSE {})
   \cup (IF \E j \in 1..(c - 1) : vc[j].reterr # "ok" THEN {"continues-after-a-failed-signature"} ELSE {})
   \cup (IF disciplined /\ \E j \in 1..c : ~SlotAlgAgrees(pre, j, vs[j].alg, e.ext) THEN {"verifier-called-under-another-algorithm"} ELSE {})
